@@ -295,6 +295,45 @@ def splice(template_path, repo_root, canary=False, quarantine=(), inline=None):
             unit.setdefault("m2fs", []).append((meth.strip(), repl.strip()))
             i += 1
             continue
+        if s.startswith("//@CONST"):
+            # the value of a constant comes from the real source: the next template line `… const NAME: T = V;` gets the real
+            # initialiser when that is a literal expression (numbers, arithmetic, casts); a constant that can no longer be found
+            # is a lost anchor of the unit. `opaque=ok`: a non-literal initialiser (e.g. `K_VALUE.get()`) keeps the template's value
+            kv = parse_kv(s[8:])
+            i += 1
+            decl = lines[i]
+            cpath = os.path.join(repo_root, kv["src"])
+            if not os.path.exists(cpath):
+                raise LostAnchor(f"source file {kv['src']} missing (constant {kv['name']})")
+            csrc = Source.get(cpath)
+            ctoks = csrc.toks
+            found = None
+            for q in range(len(ctoks) - 3):
+                if ctoks[q].kind == "ident" and ctoks[q].text == "const" and ctoks[q + 1].text == kv["name"] and ctoks[q + 2].text == ":":
+                    e = q + 3
+                    while ctoks[e].text != "=":
+                        e += 1
+                    z = e
+                    while ctoks[z].text != ";":
+                        z += 1
+                    found = (e + 1, z, csrc.line_of(ctoks[q].start))
+                    break
+            if found is None:
+                raise LostAnchor(f"constant {kv['name']} not found in {kv['src']}")
+            itoks = ctoks[found[0]:found[1]]
+            literal = bool(itoks) and all(t.kind in ("number", "num", "int", "literal") or re.fullmatch(r"[0-9][0-9_a-zA-Z]*", t.text) or t.text in ("*", "+", "-", "/", "(", ")", "<<", "as", "usize", "u64", "u32", "u16", "u8", "u128") for t in itoks)
+            if literal:
+                init = csrc.src[itoks[0].start:itoks[-1].end]
+                decl2 = re.sub(r"=\s*[^;]+;", lambda m_: "= " + init + ";", decl, count=1)
+                unit.setdefault("consts", []).append(f"{kv['name']} = {init} ({kv['src']}:{found[2]})")
+            elif kv.get("opaque") == "ok":
+                decl2 = decl
+                unit.setdefault("consts", []).append(f"{kv['name']}: non-literal initialiser in {kv['src']}:{found[2]}, the template's value is used")
+            else:
+                raise LostAnchor(f"constant {kv['name']} in {kv['src']} no longer has a literal initialiser")
+            emit(decl2)
+            i += 1
+            continue
         if s.startswith("//@TAG"):
             pending_tag = parse_kv(s[6:])
             i += 1
